@@ -1,7 +1,7 @@
 PROP = dict(
     properties="Properties/C05.v",
     harness_mods=["Harness/C05.v"],
-    runs=[dict(cmd="c05", quick=60, thorough=600, timeout=3000)],
+    runs=[dict(cmd="c05", quick=48, thorough=600, timeout=3000)],
     trusted_base=[
         "hand-written Gallina model coq/Tokens/Model.v of native_nep17.go / native_gas.go / native_neo.go / notary.go / policy.go "
         "(tied by block-by-block comparison of storage dumps, Transfer events and transaction results; not by translation)",
